@@ -15,7 +15,24 @@
 
 use core::borrow::Borrow;
 
-pub const CAP: usize = 4;
+/// Capacity: 4 by default; a harness may lower it (registry `map_cap`, passed as the compile-time
+/// environment variable VERIF_MAP_CAP) when its shape provably needs fewer entries — exceeding the
+/// capacity is `assume(false)`, so a too-small value shows up as an unsatisfied vacuity cover.
+pub const CAP: usize = cap_from_env();
+
+const fn cap_from_env() -> usize {
+    match option_env!("VERIF_MAP_CAP") {
+        Some(s) => {
+            let b = s.as_bytes();
+            if b.len() == 1 && b[0] >= b'1' && b[0] <= b'8' {
+                (b[0] - b'0') as usize
+            } else {
+                4
+            }
+        }
+        None => 4,
+    }
+}
 
 static mut ORDER_NONDET: bool = false;
 
@@ -45,7 +62,7 @@ pub struct HashMap<K, V> {
 impl<K, V> HashMap<K, V> {
     #[inline]
     pub fn new() -> Self {
-        HashMap { slots: [None, None, None, None], rot: 0 }
+        HashMap { slots: [const { None }; CAP], rot: 0 }
     }
 
     pub fn with_capacity(_n: usize) -> Self {
@@ -74,8 +91,7 @@ impl<K, V> HashMap<K, V> {
 
     pub fn iter_mut(&mut self) -> hash_map::IterMut<'_, K, V> {
         let rot = self.rot;
-        let [a, b, c, d] = &mut self.slots;
-        hash_map::IterMut { slots: [Some(a), Some(b), Some(c), Some(d)], rot, pos: 0 }
+        hash_map::IterMut { slots: self.slots.each_mut().map(Some), rot, pos: 0 }
     }
 
     pub fn values(&self) -> hash_map::Values<'_, K, V> {
